@@ -120,7 +120,7 @@ package caskettls
 //@   loop 1 invariant forall(k, 1, #i + 1, !has(cg, cand(name, k)))
 //@   loop 1 invariant !has(cg, name)
 
-//@ unit setup_sweep props=C11,C15 files=setup.go nilchecks=on nonnil_params=on dispenser_variants=on filter=`.`
+//@ unit setup_sweep props=C11,C15,C06 files=setup.go nilchecks=on nonnil_params=on dispenser_variants=on filter=`.`
 //@ // Safety sweep of this directive's setup code: index, slice, division, nil-map store, nil dereference, explicit panic,
 //@ // and termination of the loops driven by the token cursor. No functional contract; callees in the dispenser through their contracts.
 //@ use casketfile/contracts_verif.go:dispenser_api
@@ -133,6 +133,10 @@ package caskettls
 //@   // C15 "managed HTTPS exactly for qualifying sites": a site that brought its own certificates (cert/key arguments or
 //@   // `load`) is manual and STAYS manual however many `tls` lines the block has - the setup only ever sets the flag
 //@   at call fieldstore:Config.Manual before [the_manual_flag_is_only_ever_set] arg1
+//@   // C06: the protocol range of a site is what a `protocols` line named - a value of the SupportedProtocols table - and is
+//@   // only written when such a line is read (a later `tls` line without one leaves it as it is)
+//@   at call fieldstore:Config.ProtocolMinVersion before [minimum_version_is_a_named_protocol] existsT(n, string, has(SupportedProtocols, n) && SupportedProtocols[n] == arg1)
+//@   at call fieldstore:Config.ProtocolMaxVersion before [maximum_version_is_a_named_protocol] existsT(n, string, has(SupportedProtocols, n) && SupportedProtocols[n] == arg1)
 
 //@ unit helper_frames frames=on props=C11 nilchecks=on filter=`caskettls\.getPreferredDefaultCiphers$`
 //@ // helpers that other units call through an empty contract ("frame-empty, promises nothing"): here each is verified
